@@ -676,7 +676,11 @@ def execute(trace: Dict[str, Any]) -> Dict[str, Any]:
                                    detail=rec["base_changed"],
                                    sig={"oracle": "S2-host-function-in-base-functions"}))
         if rec["sub_calls"]:
-            raise kit.HarnessError("the substituted program reached a host stub")
+            # the substitute has no host calls and was given no functions: a stub can only have
+            # been reached through a registration that outlived the program it was supplied to
+            violations.append(dict(base, oracle="S2-host-function-outlived-its-program",
+                                   text=rec["sub_text"], calls=rec["sub_calls"],
+                                   sig={"oracle": "S2-host-function-outlived-its-program"}))
         # stats
         for kd, n in rec["fired"].items():
             stats[f"fault_{kd}_fired"] = stats.get(f"fault_{kd}_fired", 0) + n
